@@ -365,6 +365,9 @@ func (vc *VC) store(st *state, l *Loc, v string) {
 	if l.Kind == LCell {
 		key := vc.cellKey(l.Cell)
 		old := vc.sel(st, key, l.Ref)
+		if len(l.Path) > 0 {
+			old = vc.define("cell", vc.S.sortOf(l.Cell), old)
+		}
 		nv := vc.S.update(l.Cell, old, l.Path, v)
 		st.heap[key] = vc.define("h", vc.heapSort[key], fmt.Sprintf("(store %s %s %s)", vc.heapGet(st.heap, key), l.Ref, nv))
 		return
